@@ -19,6 +19,7 @@ from typing import Any, Dict, List, Optional
 from .gomodel import Node
 
 BYTE_TYPES = {"byte", "uint8", "unsigned char", "uint8_t"}
+PTR_WIDTH = {"uint8_t": 1, "unsigned char": 1, "char": 1, "int8_t": 1, "uint16_t": 2, "int16_t": 2, "unsigned short": 2, "short": 2, "uint32_t": 4, "int32_t": 4, "unsigned int": 4, "int": 4, "uint64_t": 8, "int64_t": 8, "unsigned long": 8, "long": 8, "unsigned long long": 8, "long long": 8}
 NUM_CONVS = {"int", "int8", "int16", "int32", "int64", "uint", "uint16", "uint32", "uint64", "uintptr", "Flag"}
 _ARITH = {"+": ast.Add, "-": ast.Sub, "*": ast.Mult, "/": ast.FloorDiv, "%": ast.Mod, "<<": ast.LShift, ">>": ast.RShift, "&": ast.BitAnd, "|": ast.BitOr, "^": ast.BitXor}
 _CMP = {"<": ast.Lt, "<=": ast.LtE, "==": ast.Eq, "!=": ast.NotEq, ">=": ast.GtE, ">": ast.Gt}
@@ -112,6 +113,11 @@ class Conv:
         if k == "conv":
             tn = self.type_name(e.type)
             base = tn.replace("const ", "").strip()
+            if self.lang == "c" and base.endswith("*"):
+                elem = base[:-1].strip()
+                if elem in PTR_WIDTH and PTR_WIDTH[elem] > 1:
+                    return self._at(ast.Call(func=ast.Name(id="__ptr__", ctx=ast.Load()), args=[ast.Constant(value=elem), self.expr(e.x)], keywords=[]), e)
+                return self.expr(e.x)
             if base in BYTE_TYPES:
                 return self._at(ast.Call(func=ast.Name(id="byte", ctx=ast.Load()), args=[self.expr(e.x)], keywords=[]), e)
             return self.expr(e.x)
